@@ -90,6 +90,9 @@ def full_backend(schema, b, flavour, flags, rng, shuffle=True):
                     row[c["name"]] = optional_value(rng, c)
                 else:
                     row[c["name"]] = copy.deepcopy(DEFAULTS[c["dtype"]])
+            if "custom_variable_names" in row and "custom_variable_values" in row and "custom_variable_names" not in given:
+                # a core sends one value per name
+                row["custom_variable_values"] = [rng.choice(["", "a", "linux"]) for _ in row["custom_variable_names"]]
             rows.append(row)
         if shuffle:
             rng.shuffle(rows)
